@@ -33,7 +33,10 @@ RIGHT_POOLS = {
     # T1 / T2 split the square (0,0)-(6,6) along x+y=6: different shapes with the SAME bounding box
     "polygon": [(sq(0, 0, 4, 4),), (tri((0, 0), (6, 0), (0, 6)),), (tri((6, 0), (6, 6), (0, 6)),), (sq(20, 20, 22, 22),),
                 (sq(0, 0, 8, 8), sq(4, 4, 6, 6)[::-1])],
-    "multipolygon": [((sq(0, 0, 2, 2),), (sq(4, 4, 6, 6),)), ((sq(0, 0, 8, 8), sq(4, 4, 6, 6)[::-1]),), ((sq(20, 20, 22, 22),),)],
+    "multipolygon": [((sq(0, 0, 2, 2),), (sq(4, 4, 6, 6),)), ((sq(0, 0, 8, 8), sq(4, 4, 6, 6)[::-1]),), ((sq(20, 20, 22, 22),),),
+                     # the same frame-with-hole, other start vertices / winding (ring start matters to the edge walk)
+                     ((sq(0, 0, 8, 8)[1:] + sq(0, 0, 8, 8)[1:2], sq(4, 4, 6, 6)[::-1][2:] + sq(4, 4, 6, 6)[::-1][1:3]),),
+                     ((sq(0, 0, 8, 8)[::-1], sq(4, 4, 6, 6)[1:] + sq(4, 4, 6, 6)[1:2]), (sq(10, 10, 12, 12),))],
     # the first two lines share the bounding box (4,4)-(6,6)
     "line": [((4, 4), (6, 6)), ((4, 6), (6, 6), (6, 4)), ((0, 2), (2, 0)), ((20, 0), (21, 0)), ((3, 0), (3, 2), (3, 2))],
     "multiline": [(((4, 4), (6, 6)), ((0, 2), (2, 0))), (((8, 8), (10, 10)),)],
@@ -213,6 +216,49 @@ def run_case(col, kind, lrows, rrows, lstyle, rstyle, extra, how, suf, case):
     col.outcome(f"{how}:pairs={min(npairs, 4)}")
 
 
+def large_case(col, how, page_hint):
+    """a left frame larger than one R-tree page (default page_size 512): 1100 points on a half-integer grid"""
+    import pandas as pd
+    from collections import Counter
+    from spatialpandas import GeoDataFrame, sjoin
+    n = 1100
+    pts = [((i % 33) * 2 + 1, (i // 33) * 2 + 1) for i in range(n)]          # odd coordinates: off every ring below
+    shapes = {"polygon": [(sq(0, 0, 20, 20),), (sq(10, 10, 66, 68),), (sq(40, 0, 42, 2),), (sq(0, 0, 66, 68), sq(20, 20, 30, 30)[::-1])],
+              "line": [((1, 1), (65, 65)), ((3, 1), (3, 67))]}
+    for kind, rrows in shapes.items():
+        col.count("evaluations")
+        col.count("nontrivial")
+        left = GeoDataFrame({"geometry": L.make_array("point", pts, "float64"), "a": np.arange(n)})
+        right = GeoDataFrame({"geometry": L.make_array(kind, rrows, "float64"), "w": np.arange(len(rrows))})
+        case = {"kind": kind, "large": True, "how": how}
+        try:
+            res = sjoin(left, right, how=how)
+        except Exception as ex:
+            col.violation("sjoin.large.raises", case, f"{type(ex).__name__}: {str(ex)[:200]}")
+            continue
+        Mx = matches(pts, kind, rrows)
+        want = Counter()
+        for i in range(n):
+            js = [j for j in range(len(rrows)) if Mx[i][j]]
+            for j in js:
+                want[(i, j)] += 1
+            if not js and how == "left":
+                want[(i, None)] += 1
+        if how == "right":
+            for j in range(len(rrows)):
+                if not any(Mx[i][j] for i in range(n)):
+                    want[(None, j)] += 1
+        got = Counter()
+        a = res["a"].tolist()
+        w = res["w"].tolist()
+        for x, y in zip(a, w):
+            got[(None if x != x else int(x), None if y != y else int(y))] += 1
+        if got != want:
+            dup = [k for k, v in got.items() if v > want.get(k, 0)][:3]
+            mis = [k for k, v in want.items() if v > got.get(k, 0)][:3]
+            col.violation(f"sjoin.large.{how}", case, f"1100 left points, {kind}: duplicated/unexpected pairs {dup}, missing pairs {mis}", how=how)
+
+
 def plan(ctx):
     T = ctx.thorough
     lseqs = [()]
@@ -245,6 +291,9 @@ def run(ctx):
     thorough = ctx.thorough
 
     def work(col, ui):
+        if ui == 0:
+            for how in HOWS:
+                large_case(col, how, None)
         kind, lseqs, rseqs = units[ui]
         pool = RIGHT_POOLS[kind]
         n = 0
